@@ -9,7 +9,7 @@ REPLAY = MODELS
 
 def run(report):
     q = report.tier == 'quick'
-    depths = {('exp', 'empty'): 4 if q else 5, ('exp', 'R1'): 2 if q else 3, ('exp', 'R2'): 2 if q else 2,
+    depths = {('exp', 'empty'): 4 if q else 5, ('exp', 'R1'): 2 if q else 3, ('exp', 'R2'): 2 if q else 2, ('exp', 'R4'): 1 if q else 2,
               ('sub', 'S0'): 3 if q else 5, ('sub', 'S1'): 2 if q else 3, ('sub', 'S2'): 2 if q else 3}
     groups = run_topo(report, MODELS, 'c08', depths)
     outs = {}
